@@ -444,6 +444,28 @@ func buildShape(uid, shape string, p *int, leaf *int, depth int) (resp.Value, bo
 				*p++
 				return out, true
 			}
+			if shape[*p] == 'r' {
+				// r<count><element>: the next element repeated count times (wide aggregates)
+				*p++
+				n := 0
+				for *p < len(shape) && shape[*p] >= '0' && shape[*p] <= '9' {
+					n = n*10 + int(shape[*p]-'0')
+					*p++
+				}
+				if n <= 0 || n > 400000 {
+					return nil, false
+				}
+				start := *p
+				for k := 0; k < n; k++ {
+					*p = start
+					v, ok := buildShape(uid, shape, p, leaf, depth+1)
+					if !ok {
+						return nil, false
+					}
+					out = append(out, v)
+				}
+				continue
+			}
 			v, ok := buildShape(uid, shape, p, leaf, depth+1)
 			if !ok {
 				return nil, false
